@@ -7,6 +7,8 @@ import (
 	"fmt"
 	"go/types"
 
+	"golang.org/x/tools/go/ssa"
+
 	"gosx/smt"
 )
 
@@ -115,13 +117,16 @@ func (m *smap) delete(i *interpreter, k value) {
 // order returns the iteration order of the map: insertion order, or — when
 // the interpreter models Go's randomised order — a nondeterministically chosen
 // permutation.
-func (m *smap) order(i *interpreter) []int {
+func (m *smap) order(i *interpreter, site *ssa.Function) []int {
 	n := m.len()
 	ord := make([]int, n)
 	for k := range ord {
 		ord[k] = k
 	}
-	if !i.symMapOrder || n < 2 {
+	if i.symMapOrder == 0 || n < 2 {
+		return ord
+	}
+	if i.symMapOrder == 1 && (site == nil || pkgPathOf(site) != subjectPkgs[0]) {
 		return ord
 	}
 	if n > 5 {
